@@ -235,6 +235,9 @@ class Calls:
                 return m(ex, decl, this_path, args, n)
             raise Unsupported('no contract for callee %s : %s (line %s)' % (qual, typestr, n.get('_line')))
         bound = self.bind_args(ex, decl, args, n)
+        if c.param_names and len(c.param_names) == len(bound):
+            # the contract speaks in the definition's parameter names; this TU may only see a prototype with other names
+            bound = [(nm, path, p) for nm, (_, path, p) in zip(c.param_names, bound)]
         if c.inline:
             d = self.definition_of(ex, decl)
             if d is None:
@@ -370,7 +373,7 @@ class Calls:
             ex2['result'] = env_post.wrap(ex.read(result.path))
         S.MODE[0] = 'assume'
         for lab, e in c.ensures:
-            if lab.startswith('hint:'):
+            if lab.startswith(('hint:', 'local:')):    # 'local:' clauses speak about the callee's own locals: proved there, not exported
                 continue      # proof hints speak about the callee's own variables
             fe = S.spec_eval(e, env_post, ex2)
             if ghosts and any(str(g) in str(fe) for g in ghosts):
